@@ -34,6 +34,34 @@ def run(chk):
                     # only disagreements that the one-shard free-running baseline does not show belong to C05
                     rep["by_sig"] = {s: v for s, v in rep["by_sig"].items() if s not in base_sigs}
                     chk.classify("tracker", args, rep)
+    # slow workers: now and then a worker's step is granted more than a second late (a result that arrives late is still
+    # the result); few long behaviours, since every late step costs its delay
+    r, c = tc.generate(chk, "sim30-slow", depth=30, MaxIdle=1, sim=6, simulate={"num": 4 if quick else 24, "depth": 31})
+    for kind in (("sort", "batchsort") if quick else kinds):
+        base = tc.replay(chk, "sim30-slow:baseline", r, c, kind, 1, "all", "nt_C05", classify=False)
+        for n in ((2,) if quick else (2, 3)):
+            args = tc.vh_args(c, kind, n, "all") + ["--sched", "slow", "--seed", str(chk.seed + n)]
+            rep = vlib.run_vh(args, [r.out], timeout=3600, stride=3 if (quick and kind == "sort") else 1)
+            rep["nontrivial"] = rep["counters"].get("nt_C05", 0)
+            chk.add_report(f"sim30-slow:{kind}:shards={n}", rep)
+            rep["by_sig"] = {s: v for s, v in rep["by_sig"].items() if s not in set(base["by_sig"])}
+            chk.classify("tracker", args, rep)
+    # batch trackers: the voting threads of one scene run while the shard workers already scan for the next scene of the
+    # batch; seeded delays at every hook site (also under the shard lock: w.dist.scan) move them against each other.
+    # Baseline: one distance shard, one voting thread, no delays.
+    rb, cb = tc.generate(chk, "batch-d3-delays", depth=3, kind="fullbatch", MaxIdle=1, MaxDets=1, Confs={900}, Cids={0}, Scenes={1, 2, 3})
+    bstride = max(1, rb.generated // (800 if quick else 20000))
+    for kind in (("batchsort",) if quick else ("batchsort", "batchvisual")):
+        base = vlib.run_vh(tc.vh_args(cb, kind, 1, "all", voters=1), [rb.out], stride=bstride)
+        for n, v in (((2, 2),) if quick else ((2, 2), (3, 2), (4, 3))):
+            for mode in ((), ("--overlap", "1")):
+                # free delays; forced overlap: a voting job starts while shard workers are inside a scan for the next scene
+                args = tc.vh_args(cb, kind, n, "all", voters=v) + ["--delay-us", "1500", "--seed", str(chk.seed + n)] + list(mode)
+                rep = vlib.run_vh(args, [rb.out], stride=bstride * (2 if mode else 1))
+                rep["nontrivial"] = rep["cases"]
+                chk.add_report(f"batch-d3-delays:{kind}:shards={n}:voters={v}{':overlap' if mode else ''}", rep)
+                rep["by_sig"] = {s: x for s, x in rep["by_sig"].items() if s not in set(base["by_sig"])}
+                chk.classify("tracker", args, rep)
     # R2: the same random history with 1 shard and with k shards under randomly delayed workers: records and ids equal
     from checks import r2_common as r2
     for i in range(3 if quick else 40):
